@@ -649,31 +649,32 @@ Lemma shp_bracket a p :
   ~ In 91 a -> ~ In 93 a -> ~ In 58 p -> ~ In 91 p -> ~ In 93 p ->
   split_host_port (91 :: a ++ 93 :: 58 :: p) = Some (a, p).
 Proof.
-  intros A2 A3 P1 P2 P3. unfold split_host_port.
-  replace (91 :: a ++ 93 :: 58 :: p) with ((91 :: a ++ [93]) ++ 58 :: p)
-    by (cbn [app]; rewrite <- app_assoc; reflexivity).
-  rewrite last_index_byte_app by exact P1.
-  replace ((91 :: a ++ [93]) ++ 58 :: p) with ((91 :: a) ++ 93 :: 58 :: p)
-    by (cbn [app]; rewrite <- app_assoc; reflexivity).
-  cbn [starts_bracket app]. rewrite N.eqb_refl.
-  change (91 :: a ++ 93 :: 58 :: p) with ((91 :: a) ++ 93 :: 58 :: p).
-  rewrite index_byte_app by (intros [E|I]; [discriminate|auto]).
-  cbn [length app]. rewrite app_length. cbn [length].
-  replace (Nat.eqb (S (length a) + 1) (S (length a + 1))) with true by (symmetry; apply Nat.eqb_eq; lia).
-  cbn [skipn].
-  rewrite (proj2 (has_byte_false _ 91) (not_in_app3 91 a 93 (58 :: p) A2 ltac:(discriminate)
-             ltac:(intros [E|I]; [discriminate|auto]))).
-  replace (S (length a) + 1)%nat with (S (S (length a))) by lia. cbn [skipn].
-  replace (a ++ 93 :: 58 :: p) with ((a ++ [93]) ++ 58 :: p) by (rewrite <- app_assoc; reflexivity).
-  replace (skipn (S (length a)) ((a ++ [93]) ++ 58 :: p)) with (58 :: p).
-  2:{ replace (S (length a)) with (length (a ++ [93])) by (rewrite app_length; cbn; lia). now rewrite skipn_app_exact. }
-  rewrite (proj2 (has_byte_false (58 :: p) 93) ltac:(intros [E|I]; [discriminate|auto])). cbn [orb].
-  replace (S (length a) - 1)%nat with (length a) by lia.
-  rewrite <- app_assoc. cbn [app]. rewrite firstn_app_exact.
-  replace (S (length a + 1) + 1)%nat with (S (S (S (length a)))) by lia. cbn [skipn].
-  replace (a ++ 93 :: 58 :: p) with ((a ++ [93; 58]) ++ p) by (rewrite <- app_assoc; reflexivity).
-  replace (S (S (length a))) with (length (a ++ [93; 58])) by (rewrite app_length; cbn; lia).
-  now rewrite skipn_app_exact.
+  intros A2 A3 P1 P2 P3.
+  set (hp := 91 :: a ++ 93 :: 58 :: p).
+  assert (R1 : hp = (91 :: a ++ [93]) ++ 58 :: p) by (unfold hp; cbn [app]; rewrite <- app_assoc; reflexivity).
+  assert (R2 : hp = (91 :: a ++ [93; 58]) ++ p) by (unfold hp; cbn [app]; rewrite <- app_assoc; reflexivity).
+  assert (L : last_index_byte hp 58 = Some (length a + 2)%nat).
+  { rewrite R1. rewrite last_index_byte_app by exact P1. f_equal. cbn [length]. rewrite app_length. cbn [length]. lia. }
+  assert (I : index_byte hp 93 = Some (length a + 1)%nat).
+  { unfold hp. change (91 :: a ++ 93 :: 58 :: p) with ((91 :: a) ++ 93 :: 58 :: p).
+    rewrite index_byte_app by (intros [E|J]; [discriminate|auto]). f_equal. cbn [length]. lia. }
+  assert (S1 : skipn 1 hp = a ++ 93 :: 58 :: p) by reflexivity.
+  assert (S2 : skipn (length a + 1 + 1) hp = 58 :: p).
+  { rewrite R1. replace (length a + 1 + 1)%nat with (length (91 :: a ++ [93]))
+      by (cbn [length]; rewrite app_length; cbn [length]; lia). apply skipn_app_exact. }
+  assert (S3 : skipn (length a + 2 + 1) hp = p).
+  { rewrite R2. replace (length a + 2 + 1)%nat with (length (91 :: a ++ [93; 58]))
+      by (cbn [length]; rewrite app_length; cbn [length]; lia). apply skipn_app_exact. }
+  assert (F1 : firstn (length a + 1 - 1) (a ++ 93 :: 58 :: p) = a).
+  { replace (length a + 1 - 1)%nat with (length a) by lia. apply firstn_app_exact. }
+  assert (H1 : has_byte (a ++ 93 :: 58 :: p) 91 = false).
+  { apply has_byte_false. apply not_in_app3; [exact A2|discriminate|]. intros [E|J]; [discriminate|auto]. }
+  assert (H2 : has_byte (58 :: p) 93 = false).
+  { apply has_byte_false. intros [E|J]; [discriminate|auto]. }
+  unfold split_host_port. rewrite L.
+  replace (starts_bracket hp) with true by reflexivity.
+  rewrite I. replace (Nat.eqb (length a + 1 + 1) (length a + 2)) with true by (symmetry; apply Nat.eqb_eq; lia).
+  rewrite S1, S2, S3, F1, H1, H2. reflexivity.
 Qed.
 
 Lemma shp_no_colon hp : ~ In 58 hp -> split_host_port hp = None.
@@ -1038,7 +1039,7 @@ Theorem xfh_after_host_rewrite_refuted :
     hget (r_hdr r) K_XFH = [] /\ hget (r_hdr r) K_XFPORT = [] /\
     F_host_rewrite t (r_host r) = true /\
     hfind up K_XFH = Some [bs "backend.internal:8500"] /\ hfind up K_XFPORT = Some [bs "8500"] /\
-    cl_host (r_host r) up = false /\ cl_port (r_host r) (is_tls r) up = false.
+    cl_host (r_host r) up = false /\ cl_port (spec_port (r_host r) (is_tls r)) up = false.
 Proof.
   exists ex_cfg, (ex_tgt (bs "backend.internal:8500")), [], (ex_req None [(bs "Accept", [bs "*/*"])]).
   eexists. eexists. witness.
@@ -1052,7 +1053,7 @@ Example xfh_after_host_rewrite_repaired :
   exists up sts,
     serve ex_cfg t [] r = Ok (up, sts) /\ F_host_rewrite t (r_host r) = true /\
     hfind up K_XFH = Some [bs "example.com"] /\ hfind up K_XFPORT = Some [bs "80"] /\
-    cl_host (r_host r) up = true /\ cl_port (r_host r) (is_tls r) up = true /\
+    cl_host (r_host r) up = true /\ cl_port (spec_port (r_host r) (is_tls r)) up = true /\
     upstream_host ex_cfg t [] r = Ok (bs "backend.internal:8500").
 Proof. cbv zeta. eexists. eexists. witness. Qed.
 
@@ -1133,7 +1134,7 @@ Example connection_strips_managed_repaired :
     F_conn_lists (r_hdr r) (canon_key (c_clientip ex_cfg)) = true /\
     hfind up (bs "X-Client-Ip") = Some [ex_peer] /\ hfind up K_XRI = Some [ex_peer] /\
     hfind up (bs "X-Tls") = Some [bs "true"] /\
-    all_hold (clauses ex_cfg (r_hdr r) ex_peer (r_host r) true true up) = true.
+    all_hold (clauses ex_cfg (r_hdr r) ex_peer (r_host r) (spec_port (r_host r) true) true true up) = true.
 Proof. cbv zeta. eexists. eexists. witness. Qed.
 
 (* unlistManagedHeaders on a Connection header with odd case, spacing, empty tokens and several
@@ -1162,7 +1163,7 @@ Example clauses_nonvacuous :
   exists up sts,
     cfg_sane ex_cfg = true /\ wf_hdr hdr = true /\
     serve ex_cfg (ex_tgt []) [] r = Ok (up, sts) /\
-    all_hold (clauses ex_cfg hdr ex_peer (r_host r) false true up) = true /\
+    all_hold (clauses ex_cfg hdr ex_peer (r_host r) (spec_port (r_host r) false) false true up) = true /\
     hfind up K_XFF = Some [bs "1.2.3.4"] /\ hfind up (bs "X-Client-Ip") = Some [ex_peer] /\
     hfind up (bs "X-Tls") = None /\ hfind up K_XRI = Some [ex_peer].
 Proof. cbv zeta. eexists. eexists. witness. Qed.
@@ -1260,6 +1261,7 @@ Section OnDomain.
   Variables (cfg : config) (t : target) (uuid : str) (r : request) (peer : str) (up : hmap) (sts : option str).
   Hypothesis SANE : cfg_sane cfg = true.
   Hypothesis WF : wf_hdr (r_hdr r) = true.
+  Hypothesis NR : no_region (r_hdr r) = true.
   Hypothesis SV : serve cfg t uuid r = Ok (up, sts).
   Hypothesis PE : r_peer r = Some peer.
 
@@ -1348,23 +1350,34 @@ Section OnDomain.
       apply od_hdr0; apply R; apply in_or_app; left; cbn; auto 10.
   Qed.
 
-  Lemma od_proto : negb (fresh hdr) || cl_proto (is_tls r) up = true.
+  Lemma od_regions : F_fwd_proto_trusted hdr = false /\ F_xfp_trusted hdr = false.
   Proof.
-    destruct (fresh hdr) eqn:F; [|reflexivity]. cbn [negb orb].
+    unfold no_region in NR. fold hdr in NR. apply andb_true_iff in NR as [A B].
+    now apply negb_true_iff in A, B.
+  Qed.
+
+  Lemma od_proto : negb (sempty (hget hdr K_XFP)) || cl_proto (is_tls r) up = true.
+  Proof.
+    destruct (hget hdr K_XFP) eqn:F; [|reflexivity]. cbn [sempty negb orb].
     destruct od_ctx as (h & A & U & Wh).
-    destruct SF as [C T R _ _ _].
+    destruct SF as [C T R _ _ _]. destruct od_regions as (F5 & _).
     destruct od_hop_literals as (_ & H2 & _).
     assert (E : hfind up K_XFP = hfind h K_XFP).
     { apply (od_transport h K_XFP A); auto with keys; reflexivity. }
+    assert (OX : off K_XFP (c_reqid cfg)) by (apply R; apply in_or_app; left; cbn; auto 10).
+    assert (OF : off K_FWD (c_reqid cfg)) by (apply R; apply in_or_app; left; cbn; auto 10).
     unfold cl_proto. rewrite E.
-    rewrite (proto_truthful cfg _ r' h A (od_fresh F)).
+    rewrite (proto_supplied cfg _ r' h A).
     - apply veq_eq. reflexivity.
+    - rewrite (hget_eq (r_hdr r') hdr K_XFP); auto. now apply od_hdr0.
+    - unfold F_fwd_proto_trusted in *.
+      rewrite (hget_eq (r_hdr r') hdr K_XFP), (hget_eq (r_hdr r') hdr K_FWD); auto; now apply od_hdr0.
     - apply C. cbn; auto.
     - apply C. cbn; auto 10.
     - apply T. apply in_or_app. left. cbn; auto.
   Qed.
 
-  Lemma od_port : negb (sempty (hget hdr K_XFPORT)) || cl_port (r_host r) (is_tls r) up = true.
+  Lemma od_port : negb (sempty (hget hdr K_XFPORT)) || cl_port (local_port (r_host r) (is_tls r)) up = true.
   Proof.
     destruct (hget hdr K_XFPORT) eqn:F; [|reflexivity]. cbn [sempty negb orb].
     destruct od_ctx as (h & A & U & Wh).
@@ -1441,17 +1454,16 @@ Section OnDomain.
     unfold cl_fwd. rewrite E.
     destruct (hget hdr K_FWD) eqn:EF.
     - cbn [sempty negb].
-      destruct (fresh hdr) eqn:FR.
-      + destruct (forwarded_fresh cfg _ r' peer h A PE (od_fresh FR) OC2 OC OT) as (p & I & L).
-        rewrite L. change (is_tls r') with (is_tls r) in I.
-        apply existsb_exists. exists p. split; [exact I|].
-        unfold starts_item. destruct (fwd_items_shape cfg r') as [Z|[rest Z]]; rewrite Z.
-        * rewrite app_nil_r, beq_refl. reflexivity.
-        * apply orb_true_iff. right. apply has_prefix_spec. exists rest.
-          apply (app_assoc _ [59] rest).
-      + destruct (forwarded_general cfg _ r' peer h A PE OT OC) as (p & L); [now rewrite G|].
-        rewrite L. apply has_prefix_spec. exists (p ++ fwd_items cfg r').
-        repeat rewrite <- app_assoc. reflexivity.
+      assert (FR : fresh hdr = true).
+      { destruct od_regions as (_ & F6). unfold F_xfp_trusted in F6. rewrite EF in F6. cbn [sempty andb] in F6.
+        apply negb_false_iff in F6. unfold fresh. now rewrite F6, EF. }
+      destruct (forwarded_fresh cfg _ r' peer h A PE (od_fresh FR) OC2 OC OT) as (p & I & L).
+      rewrite L. change (is_tls r') with (is_tls r) in I.
+      apply existsb_exists. exists p. split; [exact I|].
+      unfold starts_item. destruct (fwd_items_shape cfg r') as [Z|[rest Z]]; rewrite Z.
+      + rewrite app_nil_r, beq_refl. reflexivity.
+      + apply orb_true_iff. right. apply has_prefix_spec. exists rest.
+        apply (app_assoc _ [59] rest).
     - cbn [sempty negb].
       rewrite (forwarded_appends_only cfg _ r' h A OT OC) by (rewrite G; discriminate).
       rewrite G. apply has_prefix_spec. eexists. reflexivity.
@@ -1460,7 +1472,7 @@ Section OnDomain.
   (* every clause of the property holds at the upstream, for every client header map and
      every sane configuration outside the four finding regions *)
   Theorem serve_clauses_on_domain :
-    all_hold (clauses cfg hdr peer (r_host r) (is_tls r) true up) = true.
+    all_hold (clauses cfg hdr peer (r_host r) (local_port (r_host r) (is_tls r)) (is_tls r) true up) = true.
   Proof.
     unfold all_hold, clauses. cbn [forallb fst].
     repeat (apply andb_true_iff; split);
@@ -1517,4 +1529,93 @@ Proof.
     replace (sempty (c_tlsheader cfg)) with false in H by (destruct (c_tlsheader cfg); [congruence|reflexivity]).
     cbn [orb] in H. unfold cl_tls in H. destruct (is_tls r); now apply veq_eq in H.
   - exact (od_xri cfg t uuid r peer up sts SA W S P).
+Qed.
+
+(* ------------------------------------------------------------------ *)
+(** * localPort and IPv6 literals (F-C08-5, repaired by 25597b0) *)
+Theorem port_ipv6_refuted :
+  let host := bs "[::1]:8443" in
+  local_port_unrepaired host false = bs ":1]:8443" /\ spec_port host false = bs "8443" /\
+  local_port_unrepaired (bs "[2001:db8::2]") true = bs "db8::2]" /\ spec_port (bs "[2001:db8::2]") true = bs "443".
+Proof. cbv zeta. witness. Qed.
+
+Example port_ipv6_repaired :
+  map (fun h => local_port (bs h) false)
+      ["[::1]:8443"; "[2001:db8::2]"; "[fe80::1%eth0]:8080"; "a:b:c"; "host:"; ":80"; "example.com:8080"; "::1"; "[::1]:"; "x]:1"; ""]%string
+  = map bs ["8443"; "80"; "8080"; "80"; "80"; "80"; "8080"; "80"; "80"; "80"; "80"]%string /\
+  map (fun h => spec_port (bs h) false)
+      ["[::1]:8443"; "[2001:db8::2]"; "[fe80::1%eth0]:8080"; "a:b:c"; "host:"; ":80"; "example.com:8080"; "::1"; "[::1]:"; "x]:1"; ""]%string
+  = map bs ["8443"; "80"; "8080"; "80"; "80"; "80"; "8080"; "80"; "80"; "80"; "80"]%string.
+Proof. split; vm_compute; reflexivity. Qed.
+
+(* end to end on the current model: Host [::1]:8443 over TLS *)
+Example port_ipv6_serve :
+  let r := {| r_peer := Some ex_peer; r_host := bs "[::1]:8443"; r_tls := Some (771, 4865);
+              r_proto := bs "HTTP/1.1"; r_hdr := [] |} in
+  exists up sts, serve ex_cfg (ex_tgt []) [] r = Ok (up, sts) /\
+                 hfind up K_XFPORT = Some [bs "8443"] /\ hfind up K_XFH = Some [bs "[::1]:8443"].
+Proof. cbv zeta. eexists. eexists. witness. Qed.
+
+(* ------------------------------------------------------------------ *)
+(** * OPEN findings: fabio believes a Forwarded / X-Forwarded-Proto header the client sent *)
+
+(* F-C08-6 (region 5): plain connection, the client sends only Forwarded: for=9.9.9.9; proto=https;
+   the upstream is told X-Forwarded-Proto: https *)
+Theorem proto_from_forged_forwarded_refuted :
+  exists cfg t uuid r up sts,
+    cfg_sane cfg = true /\ wf_hdr (r_hdr r) = true /\ is_tls r = false /\
+    serve cfg t uuid r = Ok (up, sts) /\
+    hget (r_hdr r) K_XFP = [] /\ F_fwd_proto_trusted (r_hdr r) = true /\
+    hfind up K_XFP = Some [bs "https"] /\ cl_proto (is_tls r) up = false.
+Proof.
+  exists ex_cfg, (ex_tgt []), [], (ex_req None [(K_FWD, [bs "for=9.9.9.9; proto=https"])]).
+  eexists. eexists. witness.
+Qed.
+
+(* F-C08-7 (region 6): plain connection, the client sends only X-Forwarded-Proto: https; the
+   Forwarded header fabio generates says proto=https *)
+Theorem forwarded_from_forged_xfp_refuted :
+  exists cfg t uuid r up sts,
+    cfg_sane cfg = true /\ wf_hdr (r_hdr r) = true /\ is_tls r = false /\
+    serve cfg t uuid r = Ok (up, sts) /\
+    hget (r_hdr r) K_FWD = [] /\ F_xfp_trusted (r_hdr r) = true /\
+    hfind up K_FWD = Some [bs "for=1.2.3.4; proto=https; httpproto=http/1.1"] /\
+    cl_fwd (r_hdr r) ex_peer (is_tls r) up = false.
+Proof.
+  exists ex_cfg, (ex_tgt []), [], (ex_req None [(K_XFP, [bs "https"])]).
+  eexists. eexists. witness.
+Qed.
+
+(* a Forwarded header without a proto= item is not in region 5, and there the clause holds
+   (non-vacuity of the region's complement beyond the "fresh" requests) *)
+Example proto_supplied_nonvacuous :
+  let hdr := [(K_FWD, [bs "for=9.9.9.9;by=1.1.1.1"])] in
+  exists up sts,
+    no_region hdr = true /\ fresh hdr = false /\
+    serve ex_cfg (ex_tgt []) [] (ex_req None hdr) = Ok (up, sts) /\
+    hfind up K_XFP = Some [bs "http"] /\
+    all_hold (clauses ex_cfg hdr ex_peer (bs "example.com") (spec_port (bs "example.com") false) false true up) = true.
+Proof. cbv zeta. eexists. eexists. witness. Qed.
+
+(* ------------------------------------------------------------------ *)
+(** * Mechanism lemmas for the two anchored headers the property text does not mention *)
+(* the request-id header is overwritten with the generated id before addHeaders runs *)
+Theorem reqid_overwritten cfg uuid r :
+  c_reqid cfg <> [] -> hfind (r_hdr (req_with_reqid cfg uuid r)) (canon_key (c_reqid cfg)) = Some [uuid].
+Proof.
+  intros N. cbn [req_with_reqid r_hdr]. destruct (c_reqid cfg) eqn:E; [congruence|].
+  cbn [sempty negb cset]. apply hfind_hset_same.
+Qed.
+
+(* X-Forwarded-Prefix is overwritten with the route's strip= value when there is one (and
+   passes through unchanged when there is none) *)
+Theorem prefix_rule cfg strip r h' :
+  add_headers cfg strip r = Ok h' -> off K_XFPREFIX (c_tlsheader cfg) -> off K_XFPREFIX (c_clientip cfg) ->
+  hfind h' K_XFPREFIX = if sempty strip then hfind (r_hdr r) K_XFPREFIX else Some [strip].
+Proof.
+  intros H T C. apply add_headers_ok in H as (peer & P & ->). unfold upto10; rewrite ?unlist_other by auto with keys.
+  unfold upto9, upto7. rewrite st9_off by exact T. rewrite st8_other by auto with keys.
+  unfold st7. destruct (sempty strip); cbn [negb cset].
+  - rewrite st6_other, st5_other, st4_other by auto with keys. apply upto3_other; auto with keys.
+  - apply hfind_hset_same.
 Qed.
